@@ -107,16 +107,31 @@ Book(a1, r, L0, pre, L1, Lo, post, L2) ==
 \* policies keep the cost of the first admission), so the reported cost drifts away from
 \* the resident cost, in either direction, even below zero.  The drift persists until
 \* clear() resets the counter.  Only that capacity pass can create it.
-CostDev(L, r, a) == Dev("F17") /\ Bounded /\ r.k = "maint" /\ r.cr # Resident(L) + a.drift
+\* (a drift must not be confused with an entry that silently left the map: where the drift
+\* appears every resident unexpired entry is still visible to peek)
+CostDev(L, r, a) ==
+  /\ Dev("F17") /\ Bounded /\ r.k = "maint" /\ r.cr # Resident(L) + a.drift
+  /\ "view" \in DOMAIN r
+  /\ \A k \in DOMAIN L : (Present(L, k) /\ ~PossExp(L[k], r.t)) => r.view[k] # None
 
 (* ---- one completed call --------------------------------------------------------- *)
 \* Op(L, r, t) is the Layer A outcome set of the call.  Forgets announced in `notes` are
-\* split into those before the call (pre) and those after it (post); for records without an
-\* effect of their own the split is immaterial.
+\* split into those before the call (pre) and those after it (post).  Only for the keys the
+\* call itself touches does the order matter; every other forget is taken as "before".
+OpKeys(r) ==
+  CASE r.k \in {"ins", "rem", "comp", "ent", "rd", "fw"} -> {r.key}
+    [] r.k = "mins" -> KeysOf(r.items)
+    [] r.k \in {"mrem", "mget"} -> SeqToSet(r.keys)
+    [] r.k = "it" -> KeysOf(r.items)
+    [] r.k = "snap" -> KeysOf(r.entries)
+    [] r.k = "restore" -> KeysOf(r.after)
+    [] OTHER -> {}
+Choosable(r) == {i \in SpIdx(r) : r.notes[i][1] \in OpKeys(r)}
 Apply(r, Op(_, _, _), AuxUpd(_), Post(_, _)) ==
   /\ r.t >= now
   /\ B(NoDup(r.notes))
-  /\ \E P \in (IF r.k \in {"maint", "quiet", "adv", "end"} THEN {SpIdx(r)} ELSE SUBSET SpIdx(r)) :
+  /\ \E Q \in SUBSET Choosable(r) :
+       LET P == (SpIdx(r) \ Choosable(r)) \cup Q IN
        LET pre == {r.notes[i] : i \in P}
            post == {r.notes[i] : i \in SpIdx(r) \ P}
            invs == {r.notes[i] : i \in InvIdx(r)}
